@@ -186,7 +186,8 @@ def argsort_nonlocal_depth3_positions(case, why):
     """F16: argsort along a non-innermost axis of an array with three or more list levels does not count the
     rows that are too short (same root cause as F07): argsort([[],[[1]]], axis=0) gives [[],[[0]]]."""
     return (case.get("act") == "argsort" and _negaxis(case) >= 2 and case.get("fromty", "").count(" * ") >= 2
-            and why.startswith("value differs") and _may_have_short_earlier_row(case))
+            and why.startswith("value differs")
+            and (_may_have_short_earlier_row(case) or _nonzero_origin(case.get("from"))))     # (second symptom: uninitialised positions)
 
 
 def _nonzero_origin(L):
